@@ -140,6 +140,23 @@ func digitValidation(f condFact, arg ssa.Value) ([]string, bool) {
 			}
 			return true
 		}
+		// one result of a module helper that picks the table (with the radix): every return's table
+		if ex, ok := v.(*ssa.Extract); ok && d < 4 {
+			if hc, ok := ex.Tuple.(*ssa.Call); ok {
+				if h := hc.Common().StaticCallee(); h != nil && len(h.Blocks) > 0 {
+					n := 0
+					for _, b := range h.Blocks {
+						if r, ok := b.Instrs[len(b.Instrs)-1].(*ssa.Return); ok && ex.Index < len(r.Results) {
+							n++
+							if !collect(r.Results[ex.Index], d+1) {
+								return false
+							}
+						}
+					}
+					return n > 0
+				}
+			}
+		}
 		return false
 	}
 	if !collect(setVal, 0) {
@@ -751,6 +768,10 @@ func init() {
 									text = nc.Common().Args[0]
 								}
 							}
+							// the IPv6 parser may take the text itself
+							if b, ok := a.Type().Underlying().(*types.Basic); ok && b.Kind() == types.String && text == nil {
+								text = a
+							}
 						}
 						sl, ok := text.(*ssa.Slice)
 						if !ok {
@@ -1181,6 +1202,42 @@ func radixFits(env *tabEnv, call *ssa.Call, tables []string, spec *setsSpec) (bo
 			}
 		}
 		return true, ""
+	}
+	// radix and digit table picked together by a helper: each return pairs a constant radix with its table
+	if rex, ok := radix.(*ssa.Extract); ok {
+		if hc, ok := rex.Tuple.(*ssa.Call); ok {
+			if h := hc.Common().StaticCallee(); h != nil && len(h.Blocks) > 0 {
+				// which result is the table: the one of type *BitSet
+				ti := -1
+				for i := 0; i < h.Signature.Results().Len(); i++ {
+					if namedOf(h.Signature.Results().At(i).Type()) == "BitSet" {
+						ti = i
+					}
+				}
+				if ti < 0 {
+					return false, "radix varies but the digit table does not vary with it"
+				}
+				n := 0
+				for _, b := range h.Blocks {
+					r, ok := b.Instrs[len(b.Instrs)-1].(*ssa.Return)
+					if !ok {
+						continue
+					}
+					n++
+					k, ok := constInt(r.Results[rex.Index])
+					if !ok {
+						return false, "a radix picked by " + h.Name() + " is not a constant"
+					}
+					name, ok := bitsetGlobal(r.Results[ti])
+					if !ok || byRadix[k] != name {
+						return false, fmt.Sprintf("radix %d is paired with digit table %q, want %q", k, name, byRadix[k])
+					}
+				}
+				if n > 0 {
+					return true, ""
+				}
+			}
+		}
 	}
 	// radix is a phi of constants; the table must be the phi of the matching tables on the same edges
 	rphi, ok := radix.(*ssa.Phi)
